@@ -13,7 +13,9 @@ CONFIG = {
                 "compiled descriptors) and (b) generated raw proto3 sets in the J5-supported subset (1-3 files, cross-package "
                 "and sub-package refs, nested messages and enums, self/mutual recursion, oneof wrappers, exposed oneofs, maps, "
                 "repeated, proto3 optional, every supported scalar kind, well-known and j5 types, validate / list / j5 annotations "
-                "consistent with the field, enum option info + info fields, psm markers, any-membership, comments); in every third "
+                "consistent with the field, enum option info + info fields, 1 enum in 5 with value names whose SHORT name again starts with / "
+                "equals / repeats the enum's own prefix (E3_E3_V1, E3_E3, E3_E3_, E3_E3_E3_V1, E3_X_E3_V1 — a second prefix trim "
+                "anywhere in the loop renames them), psm markers, any-membership, comments); in every third "
                 "multi-package set only the last root package is a direct package of the image, the others — sub-packages included — "
                 "are exported as indirect packages as far as they are referenced -> "
                 "SchemaSetFromFiles -> structure.APIFromImage -> (optionally through the wire) -> PackageSetFromSourceAPI -> "
